@@ -82,17 +82,17 @@ func Info(v string) VInfo {
 
 // HopSpec overrides what answers the probe with a given TTL.
 type HopSpec struct {
-	Form    string          `json:"form,omitempty"`   // "" = default for the position
-	From    string          `json:"from,omitempty"`   // responder address override
-	DelayUs int             `json:"delay_us,omitempty"` // 0 = default; <0 = no latency at all
-	Silent  bool            `json:"silent,omitempty"`
-	LostReply bool          `json:"lost_reply,omitempty"` // the probe reached the responder but its reply was lost
-	AtTarget bool           `json:"at_target,omitempty"` // the target itself answers this probe (destination form by default)
-	Copies  int             `json:"copies,omitempty"`  // extra identical copies, each 1ms later
-	Perturb *simnet.Perturb `json:"perturb,omitempty"`
-	Tag     string          `json:"tag,omitempty"`
-	Truncate int            `json:"truncate,omitempty"` // deliver only the first n bytes
-	Mutate  []ByteMut       `json:"mutate,omitempty"`
+	Form      string          `json:"form,omitempty"`     // "" = default for the position
+	From      string          `json:"from,omitempty"`     // responder address override
+	DelayUs   int             `json:"delay_us,omitempty"` // 0 = default; <0 = no latency at all
+	Silent    bool            `json:"silent,omitempty"`
+	LostReply bool            `json:"lost_reply,omitempty"` // the probe reached the responder but its reply was lost
+	AtTarget  bool            `json:"at_target,omitempty"`  // the target itself answers this probe (destination form by default)
+	Copies    int             `json:"copies,omitempty"`     // extra identical copies, each 1ms later
+	Perturb   *simnet.Perturb `json:"perturb,omitempty"`
+	Tag       string          `json:"tag,omitempty"`
+	Truncate  int             `json:"truncate,omitempty"` // deliver only the first n bytes
+	Mutate    []ByteMut       `json:"mutate,omitempty"`
 	// ForwardDelayUs: the probe itself takes this long to reach the responder, so probes sent later may reach it first
 	// (reordering on the forward path); the responder's state (SACK scoreboard) is updated on arrival
 	ForwardDelayUs int `json:"forward_delay_us,omitempty"`
@@ -122,44 +122,44 @@ type Inject struct {
 	Genuine   bool            `json:"genuine,omitempty"`
 	Truncate  int             `json:"truncate,omitempty"`
 	Mutate    []ByteMut       `json:"mutate,omitempty"`
-	RawHex    string          `json:"raw_hex,omitempty"` // deliver these bytes instead of a built reply
+	RawHex    string          `json:"raw_hex,omitempty"`  // deliver these bytes instead of a built reply
 	PrevRun   bool            `json:"prev_run,omitempty"` // build the reply for the probe AnswerTTL of the previous run on this wire (stale traffic)
 	AliasTTL  int             `json:"alias_ttl,omitempty"`
 	// Noise: instead of the built reply deliver its mutation(s) of this kind; NoiseArg -1 = every variant, 1us apart
 	NoiseKind string           `json:"noise_kind,omitempty"`
 	NoiseArg  int              `json:"noise_arg,omitempty"`
-	Rewrite   []simnet.Perturb `json:"rewrite,omitempty"` // applied before the noise mutation (e.g. move the reply to a foreign flow)
+	Rewrite   []simnet.Perturb `json:"rewrite,omitempty"`  // applied before the noise mutation (e.g. move the reply to a foreign flow)
 	Repeat    int              `json:"repeat,omitempty"`   // deliver this many copies ...
 	EveryUs   int              `json:"every_us,omitempty"` // ... this far apart (a flood)
 }
 
 type Scn struct {
-	Variant   string             `json:"variant"`
-	First     int                `json:"first"`
-	Last      int                `json:"last"`
-	TimeoutMs int                `json:"timeout_ms"`
-	DelayMs   int                `json:"delay_ms"`
-	Dest      int                `json:"dest"` // TTL from which the target answers (0 = never)
-	Hops      map[int]HopSpec    `json:"hops,omitempty"`
-	Inject    []Inject           `json:"inject,omitempty"`
-	Faults    []simnet.Fault     `json:"faults,omitempty"`
-	IPIDBase  uint32             `json:"ipid_base"`
-	EchoBase  uint32             `json:"echo_base"`
-	Rand      []uint32           `json:"rand,omitempty"`
-	SynAck    *simnet.SynAckSpec `json:"synack,omitempty"`
-	NoListen  bool               `json:"no_listen,omitempty"` // SACK: target port closed
-	FiltersOff bool              `json:"filters_off,omitempty"`
-	Port      int                `json:"port,omitempty"`
-	Flow      int                `json:"flow,omitempty"` // distinguishes router addresses of concurrent runs
-	Bound     int                `json:"bound"`
-	CancelAtMs int               `json:"cancel_at_ms,omitempty"` // cancel the caller's context (icmp/sack take one)
-	EpsNs     int64              `json:"eps_ns,omitempty"`
-	NoOwnLoop bool               `json:"no_own_loop,omitempty"`
+	Variant    string             `json:"variant"`
+	First      int                `json:"first"`
+	Last       int                `json:"last"`
+	TimeoutMs  int                `json:"timeout_ms"`
+	DelayMs    int                `json:"delay_ms"`
+	Dest       int                `json:"dest"` // TTL from which the target answers (0 = never)
+	Hops       map[int]HopSpec    `json:"hops,omitempty"`
+	Inject     []Inject           `json:"inject,omitempty"`
+	Faults     []simnet.Fault     `json:"faults,omitempty"`
+	IPIDBase   uint32             `json:"ipid_base"`
+	EchoBase   uint32             `json:"echo_base"`
+	Rand       []uint32           `json:"rand,omitempty"`
+	SynAck     *simnet.SynAckSpec `json:"synack,omitempty"`
+	NoListen   bool               `json:"no_listen,omitempty"` // SACK: target port closed
+	FiltersOff bool               `json:"filters_off,omitempty"`
+	Port       int                `json:"port,omitempty"`
+	Flow       int                `json:"flow,omitempty"` // distinguishes router addresses of concurrent runs
+	Bound      int                `json:"bound"`
+	CancelAtMs int                `json:"cancel_at_ms,omitempty"` // cancel the caller's context (icmp/sack take one)
+	EpsNs      int64              `json:"eps_ns,omitempty"`
+	NoOwnLoop  bool               `json:"no_own_loop,omitempty"`
 	// SilentElsewhere: a probe whose TTL has no entry in Hops is not answered either (a TTL the run was never asked to probe)
-	SilentElsewhere bool `json:"silent_elsewhere,omitempty"`
-	MaxSteps       int    `json:"max_steps,omitempty"` // scheduler step horizon (0 = default 200000)
-	TargetOverride string `json:"target_override,omitempty"` // probe another address than the variant's default
-	ShareListener  int    `json:"share_listener,omitempty"`  // SACK: 1+index of the scenario whose listener (same address and port) this one connects to
+	SilentElsewhere bool   `json:"silent_elsewhere,omitempty"`
+	MaxSteps        int    `json:"max_steps,omitempty"`       // scheduler step horizon (0 = default 200000)
+	TargetOverride  string `json:"target_override,omitempty"` // probe another address than the variant's default
+	ShareListener   int    `json:"share_listener,omitempty"`  // SACK: 1+index of the scenario whose listener (same address and port) this one connects to
 	// Then: scenarios run one after the other in the same thread after this one (non-initial states, stale traffic)
 	Then []Scn `json:"then,omitempty"`
 	done bool
@@ -219,23 +219,23 @@ func DefaultDelayUs(t int) int { return 3000 + 1700*(t%23) + 131*(t/23) }
 // Expected describes what the script delivered for one probe TTL (ground truth for oracles).
 type Delivered struct {
 	Conditional bool // an alias of another probe's identifier: genuine only if that probe had been sent on arrival
-	TTL     int
-	From    netip.Addr
-	AtNs    int64 // delivery time
-	Genuine bool
-	Form    string
-	Tag     string
+	TTL         int
+	From        netip.Addr
+	AtNs        int64 // delivery time
+	Genuine     bool
+	Form        string
+	Tag         string
 }
 
 // Script implements simnet.Script for one or several Scn sharing a wire.
 type Script struct {
-	Scns   []*Scn // by flow: a probe is attributed to the scenario whose target/kind match and (for several) whose sink matches
-	bySink map[int]*Scn
-	held   map[int][]uint8      // sink -> SACK segments held by the target (most recent first)
-	arriving bool               // OnProbe is being run for a probe whose forward delay has elapsed
-	Seen   map[int]map[int]*refcodec.Packet // sink -> ttl -> probe
-	Sent   map[int][]Delivered
-	initSeq map[int]uint32
+	Scns     []*Scn // by flow: a probe is attributed to the scenario whose target/kind match and (for several) whose sink matches
+	bySink   map[int]*Scn
+	held     map[int][]uint8                  // sink -> SACK segments held by the target (most recent first)
+	arriving bool                             // OnProbe is being run for a probe whose forward delay has elapsed
+	Seen     map[int]map[int]*refcodec.Packet // sink -> ttl -> probe
+	Sent     map[int][]Delivered
+	initSeq  map[int]uint32
 	// RunTraceroute mode: the target is whatever address the probes go to; routers may be renumbered
 	anyTarget bool
 	routerFn  func(v6 bool, t int) netip.Addr
@@ -495,7 +495,7 @@ func (s *Script) OnProbe(n *simnet.Net, sink *simnet.Sink, p *refcodec.Packet, r
 			for c := 0; c <= hs.Copies; c++ {
 				d := int64(delay)*1000 + int64(c)*1_000_000
 				out = append(out, simnet.Reply{DelayNs: d, Raw: b, Meta: simnet.Meta{ToTTL: answers, Genuine: genuine, Tag: tag, From: from, Flow: sink.ID,
-					Dest: genuine && !conditional && answers >= sc.First && answers <= sc.Last && ProvesArrival(vi.Kind, form, from == target)}})
+					Dest: genuine && !conditional && answers >= sc.First && answers <= sc.Last && (ProvesArrival(vi.Kind, form, from == target) || (vi.Kind == "sack" && (form == "plainack" || form == "plainackTS") && from == target))}})
 				if genuine {
 					s.Sent[sink.ID] = append(s.Sent[sink.ID], Delivered{TTL: answers, From: from, AtNs: vsched.Now() + d, Genuine: true, Form: form, Tag: tag, Conditional: conditional})
 				}
@@ -624,11 +624,11 @@ func (r *randSrc) Float64() float64 { return 0.5 }
 
 // Obs is everything observed about one protocol run.
 type Obs struct {
-	Run    *result.TracerouteRun
-	Err    error
-	SinkID int
-	Done   bool
-	EndNs  int64
+	Run         *result.TracerouteRun
+	Err         error
+	SinkID      int
+	Done        bool
+	EndNs       int64
 	ThreadsLeft int // managed threads still alive when the entry point returned (single-chain runs only)
 }
 
@@ -780,10 +780,10 @@ func RunVariant(ctx context.Context, sc *Scn, port uint16) (*result.TracerouteRu
 }
 
 type Result struct {
-	X      *vsched.Exec
-	Net    *simnet.Net
-	Script *Script
-	Obs    []*Obs
+	X                   *vsched.Exec
+	Net                 *simnet.Net
+	Script              *Script
+	Obs                 []*Obs
 	FDsBefore, FDsAfter int
 }
 
@@ -796,7 +796,6 @@ func countFDs() int {
 	}
 	return len(ents)
 }
-
 
 // RunScns executes the scenarios concurrently (one managed thread each; a single scenario runs in the main thread)
 // on one shared wire.
